@@ -787,3 +787,9 @@ func panicSite(stack string) string {
 	}
 	return "?"
 }
+
+// Seq returns the current global event sequence number.
+func (w *World) Seq() uint64 { return w.seq }
+
+// EncodeFrame encodes a frame with the reference codec (exported for scenarios).
+func EncodeFrame(compression string, frm *frame.Frame) []byte { return encodeFrame(compression, frm) }
